@@ -235,14 +235,17 @@ def judge (_id : String) (lines : Array String) : Verdict := Id.run do
       if !returned && !canHang then return false
       if returned then
         if !(between census pS.leaked pP.leaked || between census pS.leaked pF.leaked) then return false
-        if nodeErr != anyFailed then return false
+        if !(nodeErr == pS.failed || nodeErr == pP.failed || nodeErr == pF.failed) then return false
         if stopres == "err" && !nodeErr then return false
         for o in outs do
           match pS.deliv.lookup o.idx, pP.deliv.lookup o.idx, pF.deliv.lookup o.idx with
           | some a, some b, some c =>
-            if !between o.total (min a (min b c)) (max a (max b c)) then return false
+            -- the model's UDF node is ONE stage; the real one is three goroutines (reader, process, forwarder)
+            -- holding a message each, and Abort drops the two that are not in the forwarder
+            let slack := 2 * ((kinds.take o.idx).filter (· == Kind.udf)).length
+            if !(min a (min b c) ≤ o.total + slack && o.total ≤ max a (max b c)) then return false
             if o.total != o.distinct then return false
-            if o.total + o.missing != acc && !anyFailed then return false
+            if o.total + o.missing != acc && !nodeErr then return false
           | _, _, _ => return false
         if outs.length != pS.deliv.length then return false
       return true
